@@ -287,7 +287,7 @@ theorem C16_first_error_once (es : List SEv) (s : SState) (hr : srun SState.init
   simp [sstep, h]
 
 /-- **C16 (the code has the modelled shape).** -/
-theorem C16_shape : Gen.startupShape_ok = true ∧ (Gen.startupShape.all (·.2)) = true ∧ Gen.startupShape.length = 7 := by decide
+theorem C16_shape : Gen.startupShape_ok = true ∧ (Gen.startupShape.all (·.2)) = true ∧ Gen.startupShape.length = 8 := by decide
 
 /-! non-vacuity: two processes, the second fails first -/
 example : (srun SState.init [.add 1, .add 2, .complete 2 true, .finish, .complete 1 true, .waiterWake, .listenerRecv]).map
